@@ -254,10 +254,11 @@ func TestVerifC27Rec(t *testing.T) {
 		t.Fatalf("only %d segments recorded", nseg)
 	}
 	// segmenter cases: generated sample streams handed to formatFMP4Track.write directly
-	nseg2, nst := 30, 3
+	nseg2, nst := 24, 3
 	if os.Getenv("VERIF_TIER") == "thorough" {
 		nseg2, nst = 1500, 12
 	}
+	nseg2 = vEnvInt("C27_SEG_N", nseg2) // for experiments: more segmenter cases in the quick tier
 	c27SegCases(t, out, rnd, filepath.Join(dir, "seg"), nseg2)
 	// the same in a child process under strace
 	c27StraceCases(t, out, vSeed(), filepath.Join(dir, "strace"), nst)
